@@ -8,7 +8,7 @@ import os
 import random
 
 from .. import core, ops, gen, xform, report
-from ..core import T0_NS, b2s, s2b, stable_hash
+from ..core import T0_NS, b2s, s2b, rule, stable_hash
 from ..world import World, inventory
 
 ID = "C07"
@@ -62,6 +62,8 @@ def gen_case(seed, i):
             if rng.random() < 0.25:
                 e["mode"] = rng.choice([0o444, 0o400, 0o555, 0o600])      # read-only and odd permissions
     case = {"i": i, "cfg": cfg, "world": world.to_json(), "roots": roots, "seam_seed": rng.randint(1, 10**9)}
+    # TMPDIR on another file system than everything else (the usual tmpfs /tmp): no rename or hard link leaves it
+    case["tmp_xdev"] = rng.random() < 0.3
     if rng.random() < 0.6:
         case["kind"] = "group"
         r = rng.random()
@@ -121,6 +123,8 @@ def shrink(case):
         c = dict(case); c["world"] = {"entries": ents[:i] + ents[i + 1:]}; yield c
     if case.get("out_file"):
         c = dict(case); c["out_file"] = False; yield c
+    if case.get("tmp_xdev"):
+        c = dict(case); c["tmp_xdev"] = False; yield c
     if case["cfg"].get("cache"):
         c = dict(case); c["cfg"] = dict(case["cfg"], cache=False); yield c
     if case["cfg"]["threads"] != ["1"]:
@@ -193,6 +197,7 @@ def run_case(case):
                 V("cache-location", "%s: files created under HOME although XDG_CACHE_HOME is set: %s" % (tag, stray), res)
             return after
 
+        xplan = [rule(kind=k_, act="errno:EXDEV", prefix=rd.tmp, count="inf") for k_ in ("rename",)] if case.get("tmp_xdev") else []
         before = inventory(rd.world)
         nfiles = len([e for e in before.values() if e.type == "f"])
         if case["kind"] == "group":
@@ -204,7 +209,7 @@ def run_case(case):
             if "xdg" in case:
                 genv, gcwd = dict(env, XDG_CACHE_HOME=case["xdg"]), os.path.join(rd.world, case["roots"][0])
             for k in range(runs):
-                res = ops.group(rd, roots, args, env=genv, ro=ro, seed=case["seam_seed"] + k, now_ns=T0_NS + k * 10**9, cwd=gcwd)
+                res = ops.group(rd, roots, args, env=genv, ro=ro, seed=case["seam_seed"] + k, now_ns=T0_NS + k * 10**9, cwd=gcwd, plan=xplan)
                 traces.append(res.trace)
                 before = judge(res, before, "group run %d" % (k + 1)) if program_writes else (judge(res, before, "group run %d" % (k + 1)) and before)
             completed = res.rc == 0
@@ -218,7 +223,7 @@ def run_case(case):
                 if case["out_file"]:
                     extra += ["-o", os.path.join(outdir, "script.out")]
                 res = ops.dedupe(rd, case["op"], g.out, extra=extra, target=os.path.join(rd.base, "mvtarget"), env=env,
-                                 ro=ro + [os.path.join(rd.base, "mvtarget")], now_ns=T0_NS + 3600 * 10**9, seed=case["seam_seed"] + 1)
+                                 ro=ro + [os.path.join(rd.base, "mvtarget")], now_ns=T0_NS + 3600 * 10**9, seed=case["seam_seed"] + 1, plan=xplan)
                 traces.append(res.trace)
                 judge(res, before, "%s --dry-run" % case["op"])
                 if os.path.exists(os.path.join(rd.base, "mvtarget")):
